@@ -1091,7 +1091,8 @@ func ruleNLayer(w *World, r *Report, shift *ssa.Function) {
 		}
 		return -1
 	}
-	bad := ""
+	bad, open := "", ""
+	selfCompare := ""
 	for mask := 0; mask < 8; mask++ {
 		zero := [3]bool{mask&1 != 0, mask&2 != 0, mask&4 != 0}
 		var orZero func(v ssa.Value) (bool, bool)
@@ -1119,11 +1120,46 @@ func ruleNLayer(w *World, r *Report, shift *ssa.Function) {
 			}
 			return false, false
 		}
+		// a test the sign-pattern oracle cannot read (a comparison of structs built from the
+		// offsets, a helper call) that is not a loop bound: the enumeration is not conclusive
+		unread := ""
+		inner := orc
+		orc = func(cond ssa.Value) (bool, bool) {
+			out, known := inner(cond)
+			if !known {
+				isBound := false
+				if b, ok := resolve(cond).(*ssa.BinOp); ok {
+					switch b.Op {
+					case token.LSS, token.LEQ, token.GTR, token.GEQ:
+						isBound = true
+					}
+				}
+				if _, isNext := resolve(cond).(*ssa.Extract); isNext {
+					isBound = true // ok of a range-loop next
+				}
+				// the skip is decided by comparing the shifted ID with the input ID: an offset of
+				// a whole lap of the grid lands on the voxel itself and is dropped although it is
+				// not the zero offset
+				if b, ok := resolve(cond).(*ssa.BinOp); ok && (b.Op == token.EQL || b.Op == token.NEQ) && isStringType(b.X.Type()) {
+					if resolve(b.X) == ssa.Value(c) || resolve(b.Y) == ssa.Value(c) {
+						selfCompare = w.Pos(b.Pos())
+					}
+				}
+				if !isBound && unread == "" {
+					unread = describeValue(cond)
+				}
+			}
+			return out, known
+		}
 		origin := zero[0] && zero[1] && zero[2]
 		if origin {
 			reach := simulate(four[0].body, map[*ssa.BasicBlock]bool{four[0].hdr: true}, orc)
 			if reach[c.Block()] {
-				bad = "the zero offset (0,0,0) is not skipped: the input voxel itself is returned"
+				if unread != "" {
+					open = "whether the zero offset is skipped depends on a test that was not read (" + unread + ")"
+				} else {
+					bad = "the zero offset (0,0,0) is not skipped: the input voxel itself is returned"
+				}
 			}
 			continue
 		}
@@ -1135,14 +1171,24 @@ func ruleNLayer(w *World, r *Report, shift *ssa.Function) {
 			} else {
 				next = c.Block()
 			}
+			unread = ""
 			reach := simulate(four[i].body, map[*ssa.BasicBlock]bool{next: true}, orc)
 			if reach[four[i].hdr] {
-				bad = fmt.Sprintf("a non-zero offset (dx zero=%v, dy zero=%v, dv zero=%v) or an input ID can be skipped", zero[0], zero[1], zero[2])
+				if unread != "" {
+					open = "whether a non-zero offset can be skipped depends on a test that was not read (" + unread + ")"
+				} else {
+					bad = fmt.Sprintf("a non-zero offset (dx zero=%v, dy zero=%v, dv zero=%v) or an input ID can be skipped", zero[0], zero[1], zero[2])
+				}
 			}
 		}
 	}
+	if bad == "" && selfCompare != "" {
+		bad = "the skip at " + selfCompare + " compares the shifted ID with the input ID instead of testing the offsets: a non-zero offset that wraps around the grid onto the voxel itself is dropped as if it were the zero offset"
+	}
 	if bad != "" {
 		r.add("STENCIL", fn+" / box minus origin", pos, Violated, bad)
+	} else if open != "" {
+		r.add("STENCIL", fn+" / box minus origin", pos, Undecided, open)
 	} else {
 		r.add("STENCIL", fn+" / box minus origin", pos, Discharged, "all 7 non-zero sign patterns reach the shift of every input ID; the origin is skipped")
 	}
